@@ -46,6 +46,7 @@ several string arrays, each with its own table (`Model/StringTable.lean`; output
   sa setvecmask a bits b | sa getslice a IDX | sa eq a b | sa ne a b | sa eqs a s | sa nes a s        (bits: 1,0,1)
 buffer protocol (`Model/BufferProtocol.lean`):
   buf get <fromShape> atomic width dims length stride
+  buf export <fromShape> atomic width dims length stride off <mem hex|->   -> `ok <hex of what a consumer of the exported view reads>`
   buf from <checks> <copy 0 memcpy|1 requireContiguous|2 logical> atomic width dims sizeofT fmt srcfmt srcitemsize
            <shape csv|-> <strides csv|-> <off> <len> <mem hex|->     -> `ok alloc=N bytes=<hex>` | `err <kind>`
 -/
@@ -390,6 +391,11 @@ def handleBuf (t : List String) : String :=
     let ty : ElemTy := ⟨a.toNat!, w.toNat!, dm.toNat!, 0, 'x'⟩
     let b := getbuffer ⟨fs == "1", false, .memcpy⟩ ty len.toNat! st.toNat!
     s!"len={b.len} itemsize={b.itemsize} ndim={b.ndim} shape={showNats b.shape} strides={showNats b.strides}"
+  | ["export", fs, a, w, dm, len, st, off, mem] =>
+    let ty : ElemTy := ⟨a.toNat!, w.toNat!, dm.toNat!, 0, 'x'⟩
+    match exportBytes ⟨fs == "1", false, .memcpy⟩ ty len.toNat! st.toNat! (if mem == "-" then [] else parseHex mem.toList) off.toNat! with
+    | some bytes => s!"ok {showHex bytes}"
+    | none => "err outside"
   | ["from", ck, mode, a, w, dm, sz, fmt, sfmt, sitem, shape, strides, off, len, mem] =>
     let ty : ElemTy := ⟨a.toNat!, w.toNat!, dm.toNat!, sz.toNat!, fmt.front⟩
     let src : Src := ⟨if sfmt == "NULL" then [] else sfmt.toList, sitem.toNat!, nats shape, ints strides,
